@@ -17,6 +17,7 @@ import TraitsVerif.Generated.Mutators
 import TraitsVerif.Lemmas.PyLObj
 import TraitsVerif.Generated.CtorCopy
 import TraitsVerif.Model.CtorCopyAssumed
+import TraitsVerif.Lemmas.PyLCtor
 namespace TraitsVerif.Props.C07
 open TraitsVerif TraitsVerif.Py TraitsVerif.Model.SetM
 open TraitsVerif.Py.PSet (Op WF Equiv ofList)
@@ -581,6 +582,39 @@ theorem C07_copy_is_source :
     Generated.CtorCopy.traitSetCtorCopy = Model.CtorCopyAssumed.traitSetCtorCopy ∧
     Generated.CtorCopy.traitSetObjectCtorCopy = Model.CtorCopyAssumed.traitSetObjectCtorCopy := by
   first | rfl | exact ⟨rfl, rfl⟩
+
+/-- **C07_init_is_source.**  `TraitSet.__init__` and `TraitSetObject.__init__`
+as interpreted programs (`translate/ctorprog.py`, `Model/PyLCtor.lean`; the
+latter run with `super().__init__` bound to the translated former): for every
+iterable, validator and notifier argument / trait, owner and value they are the
+modelled constructors, whose members are `TraitSet.init` of the chosen
+validator — every initial member goes through it in order with the call ordinal
+threaded, nothing is stored if one fails — i.e. what whole-value assignment of a
+`Set` trait establishes (`C07_init`, `members_valid_init`); the validator is the
+caller's iff one was given / the object's own `_validator`; the notifier list
+is the one given (the caller's list object: `TraitSet` does not copy it) /
+`[self.notifier]`; owner by weak reference iff not `None`, `name_items` iff the
+trait has an items event. -/
+theorem C07_init_is_source (C : Model.PyLC.Ctx α) (xs : List α) (iv : Option Model.PyLC.VSrc)
+    (ns : Option Model.PyLC.NSrc) (t : Option Bool) (owner : Bool) :
+    Model.PyLC.runListInit Generated.Ctor.traitSetInit C xs iv ns = Model.PyLC.setInit C xs iv ns ∧
+    Model.PyLC.runListObjectInit Generated.Ctor.traitSetObjectInit Generated.Ctor.traitSetInit C t owner xs
+      = Model.PyLC.setObjectInit C t owner xs ∧
+    (Model.PyLC.setInit C xs (some .arg) ns).map (fun o => ofList o.items) = TraitSet.init C.given xs ∧
+    (Model.PyLC.setObjectInit C t owner xs).map (fun o => ofList o.items) = TraitSet.init C.own xs ∧
+    (∀ o, Model.PyLC.setObjectInit C t owner xs = .ok o →
+      o.itemValidator = .own ∧ o.notifiers = .ownAlias ∧ o.object = some owner ∧ o.trait = some t ∧
+      o.nameItems = some (t == some true)) := by
+  refine ⟨Lemmas.PyLCtor.set_init_is_source C xs iv ns, Lemmas.PyLCtor.set_object_init_is_source C t owner xs, ?_, ?_, ?_⟩
+  · simp only [Model.PyLC.setInit, TraitSet.init, Option.getD, Model.PyLC.Ctx.vOf]
+    cases valAll C.given 0 xs <;> rfl
+  · simp only [Model.PyLC.setObjectInit, TraitSet.init]
+    cases valAll C.own 0 xs <;> rfl
+  · intro o ho
+    simp only [Model.PyLC.setObjectInit] at ho
+    cases hv : valAll C.own 0 xs with
+    | error e => simp [hv] at ho
+    | ok ys => simp only [hv, Except.ok.injEq] at ho; subst ho; simp
 
 /-! ### Tie to the source: the mutators that exist are the mutators modelled -/
 
